@@ -1405,6 +1405,204 @@ def _may_write(st, mentioned):
     return False
 
 
+def first_match_forms(func):
+    """The ways of writing "the first element that fits, else ..." around `next(<generator expression>, default)`, put into the forms the
+    code base uses:
+      return next(G, D)                                   ->  try: return next(G)  / except StopIteration: return D
+      v = next(G, None); if v is None: MISS; return v     ->  for x in S: [y = F] if C: return E  /  MISS        (MISS leaves the function)
+    where G = (E for x in S if C), also over an inner generator (E for y in (F for x in S) if C) and with a generator bound to a local
+    that is used only there.  A StopIteration cannot come out of G's own expressions (PEP 479).  Returns the number of rewrites."""
+    count = 0
+
+    def is_next(e, nargs):
+        return (isinstance(e, ast.Call) and isinstance(e.func, ast.Name) and e.func.id == 'next' and not e.keywords and len(e.args) == nargs
+                and isinstance(e.args[0], ast.GeneratorExp))
+
+    def none(e):
+        return isinstance(e, ast.Constant) and e.value is None
+
+    def leaves(stmts):
+        return bool(stmts) and isinstance(stmts[-1], (ast.Return, ast.Raise))
+
+    def loops_of(g, inner):
+        """nested for / if statements of generator expression g around the statements `inner` (built for the innermost position)"""
+        body = inner
+        for comp in reversed(g.generators):
+            if comp.is_async:
+                return None
+            for c in reversed(comp.ifs):
+                body = [ast.If(test=c, body=body, orelse=[])]
+            it = comp.iter
+            if isinstance(it, ast.GeneratorExp) and len(it.generators) == 1 and isinstance(comp.target, ast.Name):
+                # for y in (F for x in S if C2): BODY   ->   for x in S: if C2: y = F; BODY
+                bind = ast.Assign(targets=[ast.Name(id=comp.target.id, ctx=ast.Store())], value=it.elt, type_comment=None)
+                body = loops_of(it, [bind] + body)
+                if body is None:
+                    return None
+                continue
+            body = [ast.For(target=comp.target, iter=it, body=body, orelse=[], type_comment=None)]
+        return body
+
+    def visit(stmts):
+        nonlocal count
+        j = 0
+        while j < len(stmts):
+            st = stmts[j]
+            for fld in ('body', 'orelse', 'finalbody'):
+                sub = getattr(st, fld, None)
+                if isinstance(sub, list) and sub and isinstance(sub[0], ast.stmt) and not isinstance(st, (ast.FunctionDef, ast.AsyncFunctionDef, ast.ClassDef)):
+                    visit(sub)
+            for h in getattr(st, 'handlers', []) or []:
+                visit(h.body)
+            # a generator bound to a local that the next statement's next() consumes, and nothing else
+            if (isinstance(st, ast.Assign) and len(st.targets) == 1 and isinstance(st.targets[0], ast.Name) and isinstance(st.value, ast.GeneratorExp)
+                    and j + 1 < len(stmts)):
+                nm = st.targets[0].id
+                uses = [x for x in ast.walk(func) if isinstance(x, ast.Name) and x.id == nm]
+                nx = stmts[j + 1]
+                inside = [x for x in ast.walk(nx) if isinstance(x, ast.comprehension) and isinstance(x.iter, ast.Name) and x.iter.id == nm]
+                if len(uses) == 2 and len(inside) == 1 and isinstance(nx, (ast.Assign, ast.Return)) and is_next(nx.value, 2):
+                    inside[0].iter = st.value
+                    del stmts[j]
+                    count += 1
+                    continue
+            if isinstance(st, ast.Return) and st.value is not None and is_next(st.value, 2):
+                g, d = st.value.args
+                tr = ast.Try(body=[ast.Return(value=ast.Call(func=st.value.func, args=[g], keywords=[]))],
+                             handlers=[ast.ExceptHandler(type=ast.Name(id='StopIteration', ctx=ast.Load()), name=None, body=[ast.Return(value=d)])],
+                             orelse=[], finalbody=[])
+                ast.copy_location(tr, st)
+                ast.fix_missing_locations(tr)
+                for x in ast.walk(tr):
+                    if not hasattr(x, 'lineno'):
+                        ast.copy_location(x, st)
+                stmts[j] = tr
+                count += 1
+                j += 1
+                continue
+            if (isinstance(st, ast.Assign) and len(st.targets) == 1 and isinstance(st.targets[0], ast.Name) and is_next(st.value, 2)
+                    and none(st.value.args[1]) and j + 2 < len(stmts) + 0 and isinstance(stmts[j + 1], ast.If) and not stmts[j + 1].orelse):
+                v = st.targets[0].id
+                test, nxt = stmts[j + 1].test, stmts[j + 1]
+                is_none = isinstance(test, ast.Compare) and len(test.ops) == 1 and isinstance(test.ops[0], ast.Is) and isinstance(test.left, ast.Name) \
+                    and test.left.id == v and none(test.comparators[0])
+                ret = stmts[j + 2]
+                if is_none and leaves(nxt.body) and isinstance(ret, ast.Return) and isinstance(ret.value, ast.Name) and ret.value.id == v \
+                        and not any(isinstance(x, ast.Name) and x.id == v for b in nxt.body for x in ast.walk(b)) \
+                        and sum(1 for x in ast.walk(func) if isinstance(x, ast.Name) and x.id == v) == 3:
+                    g = st.value.args[0]
+                    body = loops_of(g, [ast.Return(value=g.elt)])
+                    if body is not None:
+                        new = body + nxt.body
+                        for n_ in new:
+                            ast.copy_location(n_, st)
+                            ast.fix_missing_locations(n_)
+                            for x in ast.walk(n_):
+                                if not hasattr(x, 'lineno'):
+                                    ast.copy_location(x, st)
+                        stmts[j:j + 3] = new
+                        count += 1
+                        j += len(new)
+                        continue
+            j += 1
+    visit(func.body)
+    return count
+
+
+def successor_pairs_to_index(func):
+    """`for x, nxt in zip_longest(S, S[1:]):` with `nxt` used only as `if nxt is not None: .. nxt ..` / `if nxt is None: .. else: .. nxt ..`
+    is the loop over the positions of S the code base writes: `for i in range(0, len(S)): x = S[i]`, "there is a successor" is
+    `i < len(S) - 1`, the successor is `S[i + 1]`.  (None as the fill value stands for "no successor": an element of S that is None
+    would make both forms fail with AttributeError on that element.)  Returns the number of loops rewritten."""
+    count = 0
+    for loop in [x for x in ast.walk(func) if isinstance(x, ast.For)]:
+        it, tg = loop.iter, loop.target
+        if not (isinstance(it, ast.Call) and src(it.func).split('.')[-1] == 'zip_longest' and len(it.args) == 2 and not it.keywords
+                and isinstance(tg, ast.Tuple) and len(tg.elts) == 2 and all(isinstance(e, ast.Name) for e in tg.elts)):
+            continue
+        S, T = it.args
+        if not (isinstance(S, ast.Name) and isinstance(T, ast.Subscript) and isinstance(T.value, ast.Name) and T.value.id == S.id
+                and isinstance(T.slice, ast.Slice) and T.slice.upper is None and T.slice.step is None
+                and isinstance(T.slice.lower, ast.Constant) and T.slice.lower.value == 1):
+            continue
+        cur, nxt = tg.elts[0].id, tg.elts[1].id
+        if any(isinstance(x, ast.Name) and x.id in (S.id, nxt) and isinstance(x.ctx, (ast.Store, ast.Del)) for b in loop.body for x in ast.walk(b)) \
+                or loop.orelse:
+            continue
+        idx = '_i_%s' % S.id
+        if any(isinstance(x, ast.Name) and x.id == idx for x in ast.walk(func)):
+            continue
+
+        def has_next():
+            return ast.Compare(left=ast.Name(id=idx, ctx=ast.Load()), ops=[ast.Lt()],
+                               comparators=[ast.BinOp(left=ast.Call(func=ast.Name(id='len', ctx=ast.Load()), args=[ast.Name(id=S.id, ctx=ast.Load())],
+                                                                    keywords=[]), op=ast.Sub(), right=ast.Constant(value=1))])
+
+        def the_next():
+            return ast.Subscript(value=ast.Name(id=S.id, ctx=ast.Load()),
+                                 slice=ast.BinOp(left=ast.Name(id=idx, ctx=ast.Load()), op=ast.Add(), right=ast.Constant(value=1)), ctx=ast.Load())
+
+        def none_test(t):
+            if isinstance(t, ast.Compare) and len(t.ops) == 1 and isinstance(t.left, ast.Name) and t.left.id == nxt \
+                    and isinstance(t.comparators[0], ast.Constant) and t.comparators[0].value is None:
+                if isinstance(t.ops[0], ast.IsNot):
+                    return True
+                if isinstance(t.ops[0], ast.Is):
+                    return False
+            return None
+        ok = True
+        plan = []        # (node, field, new test, branch in which nxt may be read)
+
+        def scan(stmts, allowed):
+            nonlocal ok
+            for st in stmts:
+                if isinstance(st, ast.If) and none_test(st.test) is not None:
+                    pos = none_test(st.test)
+                    plan.append((st, pos))
+                    scan(st.body, allowed or pos)
+                    scan(st.orelse, allowed or not pos)
+                    continue
+                subs = []
+                for fld in ('body', 'orelse', 'finalbody'):
+                    b = getattr(st, fld, None)
+                    if isinstance(b, list) and b and isinstance(b[0], ast.stmt):
+                        subs.append(b)
+                for h in getattr(st, 'handlers', []) or []:
+                    subs.append(h.body)
+                inner = {id(x) for b in subs for y in b for x in ast.walk(y)}
+                for x in ast.walk(st):
+                    if id(x) in inner:
+                        continue
+                    if isinstance(x, ast.Name) and x.id == nxt and not allowed:
+                        ok = False
+                for b in subs:
+                    scan(b, allowed)
+        scan(loop.body, False)
+        if not ok:
+            continue
+        for st, pos in plan:
+            st.test = has_next() if pos else ast.UnaryOp(op=ast.Not(), operand=has_next())
+
+        class R(ast.NodeTransformer):
+            def visit_Name(s_, node):
+                if node.id == nxt and isinstance(node.ctx, ast.Load):
+                    return ast.copy_location(the_next(), node)
+                return node
+        loop.body = [R().visit(b) for b in loop.body]
+        loop.body.insert(0, ast.Assign(targets=[ast.Name(id=cur, ctx=ast.Store())],
+                                       value=ast.Subscript(value=ast.Name(id=S.id, ctx=ast.Load()), slice=ast.Name(id=idx, ctx=ast.Load()),
+                                                           ctx=ast.Load()), type_comment=None))
+        loop.target = ast.Name(id=idx, ctx=ast.Store())
+        loop.iter = ast.Call(func=ast.Name(id='range', ctx=ast.Load()), args=[ast.Constant(value=0), ast.Call(
+            func=ast.Name(id='len', ctx=ast.Load()), args=[ast.Name(id=S.id, ctx=ast.Load())], keywords=[])], keywords=[])
+        ast.fix_missing_locations(loop)
+        for x in ast.walk(loop):
+            if not hasattr(x, 'lineno'):
+                ast.copy_location(x, loop)
+        count += 1
+    return count
+
+
 def inline_constant_set_locals(func):
     """`names = (Enum.A, Enum.B)` (one definition; a tuple / frozenset display of dotted constants - nothing local, nothing that can
     change) whose later uses in the same block are membership tests `x in names` / `x not in names`: the display is put where
@@ -3152,6 +3350,9 @@ class Inliner:
                 k = conditional_callee_to_branches(fi.node)
                 if k:
                     self.report.setdefault('conditional_callees', {})[q] = k
+                k = first_match_forms(fi.node)
+                if k:
+                    self.report.setdefault('first_match_forms', {})[q] = k
                 k = next_default_to_try(fi.node)
                 if k:
                     self.report.setdefault('next_with_default', {})[q] = k
@@ -3348,6 +3549,9 @@ class Inliner:
                 k = inline_constant_set_locals(fi.node)
                 if k:
                     self.report.setdefault('constant_set_locals', {})[q] = k
+                k = successor_pairs_to_index(fi.node)
+                if k:
+                    self.report.setdefault('successor_pairs', {})[q] = k
                 k = counting_whiles_to_for(fi.node)
                 if k:
                     self.report['counting_loops'][q] = k
